@@ -437,6 +437,8 @@ PROPS = {
         "timeout": 900,
         "thorough_timeout": 3000,
         "race_thorough": True,
+        "race_is_violation": True,
+        "race_filter": "math/rand.(*Rand)",  # concurrent use of one rand.Rand corrupts it and can panic: a crash waiting to happen
         "thorough_scale": 3,
         "gomaxprocs": [16, 4, 1, 16, 2, 16, 8, 1],
         "rule": "C16/interleave: scripts of 2-25 actions against an in-process UCI driver whose engine searches through a harness "
@@ -454,7 +456,7 @@ PROPS = {
                 "held search afterwards must not blow up. Non-trivial = distinct scripts in which a go, stop or isready arrived "
                 "while a search was held, a held iteration was released singly, or shutdown happened with a search in flight; all "
                 "ungated scripts with a go. evaluations = scripts.",
-        "assumptions": COMMON_ASSUMPTIONS + ["the Go scheduler between gates is not owned by the harness", "race-detector reports in these runs are recorded as diagnostics (C17 is where race freedom is demanded)",
+        "assumptions": COMMON_ASSUMPTIONS + ["the Go scheduler between gates is not owned by the harness", "race-detector reports in these runs are recorded as diagnostics (C17 is where race freedom is demanded), with one exception: concurrent use of a single math/rand.Rand, which is documented as unsafe and panics (index out of range) under contention - a crash waiting for its schedule - is a violation",
                                              "lines the driver answers by a deliberate shutdown (unparsable go arguments) end the script: clean closure is required"],
         "level_text": "Exploration with a harness-owned schedule for the orderings that matter (search completion vs command "
                       "processing vs shutdown), ~2.4k scripts per quick run, plus ungated scripts for scheduler noise; thorough "
